@@ -4,6 +4,7 @@ CONSTANTS
   MaxNotes = 2
   None = None
   Calls = {c1, c2}
+  JoinWaits = TRUE
   PopFirst = TRUE
   BadClose = {1, 2, 3, 5, 8}
   GateBySubscription = FALSE
